@@ -121,6 +121,7 @@ func firstDue(segStart, segEnd, timescale uint64, perMinute int) int {
 
 //@ func CreateEmsgAhead
 //@   returns  (box, err)
+//@   nowrap
 //@   requires 0 < timescale && timescale <= 10000000
 //@   requires segStart <= segEnd && segEnd + 120*timescale <= maxMediaTime
 //@   ensures  invalid: !(perMinute == 1 || perMinute == 2 || perMinute == 3) ==> err != nil && box == nil
@@ -142,6 +143,7 @@ func firstDue(segStart, segEnd, timescale uint64, perMinute int) int {
 // the segment whose interval (segStart, segEnd] contains the instant 7 s before it carries an
 // event, and that event is this splice (a segment of at most 10 s contains at most one such instant).
 //@ lemma lemmaDueIsAnnounced
+//@   nowrap
 //@   requires 0 < timescale && timescale <= 10000000 && (perMinute == 1 || perMinute == 2 || perMinute == 3) && 0 <= k && k < perMinute
 //@   requires segStart <= segEnd && segEnd - segStart <= 10*timescale && segEnd + 120*timescale <= maxMediaTime
 //@   requires minuteOffset == 0 || minuteOffset == 60*timescale || (minuteOffset >= 120*timescale && minuteOffset <= maxMediaTime)
@@ -157,6 +159,7 @@ func lemmaDueIsAnnounced(segStart, segEnd, timescale uint64, perMinute int, minu
 // lemmaAnnouncedIsDue: an event is only carried by a segment whose interval contains the
 // instant 7 s before the splice, and the splice is one of the scheduled ones.
 //@ lemma lemmaAnnouncedIsDue
+//@   nowrap
 //@   requires 0 < timescale && timescale <= 10000000 && (perMinute == 1 || perMinute == 2 || perMinute == 3)
 //@   requires segStart <= segEnd && segEnd + 120*timescale <= maxMediaTime
 func lemmaAnnouncedIsDue(segStart, segEnd, timescale uint64, perMinute int) {
